@@ -82,7 +82,7 @@ def WFTy (env : Env) : Ty → Prop
   | .callable (some (ts, sz)) ret blk =>
     WFTys env ts ∧ CallableShape ts sz ret.isSome blk.isSome ∧ WFOpt env ret ∧ WFOpt env blk ∧ blk.all Ty.isBlock = true
   | .runtime rt name pat =>
-    (rt = [] → name = [] ∧ pat = none) ∧ (rt = "go".toList → name = []) ∧
+    (rt = "go".toList → name = []) ∧
     (match pat with
      | some src => name ≠ [] ∧ (src = [] ∨ (rxRep false src = true ∧ env.rxOK src = true))
      | none => True)
@@ -293,7 +293,7 @@ theorem lit_tyExpr (env : Env) : (t : Ty) → WFTy env t → Lit env (tyExpr t)
     simp only [tyExpr]
     exact lit_callableVal env _ _ _ htp (lit_tyExprOpt env blk hblk) (lit_tyExprOpt env ret hret)
   | .runtime rt name pat, h => by
-    obtain ⟨h1, h2, h3⟩ := h
+    obtain ⟨_, h3⟩ := h
     simp only [tyExpr]
     split
     · exact lit_tname env _ _ trivial
@@ -688,41 +688,35 @@ theorem resolve_regexp_arg (env : Env) (src : Str) :
   simp [resolveArg, this]
 
 theorem resolve_runtime (env : Env) (rt name : Str) (pat : Option Str)
-    (h : (rt = [] → name = [] ∧ pat = none) ∧ (rt = "go".toList → name = []) ∧
+    (h : (rt = "go".toList → name = []) ∧
       (match pat with
        | some src => name ≠ [] ∧ (src = [] ∨ (rxRep false src = true ∧ env.rxOK src = true))
        | none => True)) :
     resolve env (exprOf (tyExpr (.runtime rt name pat))) = some (.runtime rt name pat) := by
-  obtain ⟨h1, h2, h3⟩ := h
+  obtain ⟨h2, h3⟩ := h
   simp only [tyExpr]
-  by_cases hrt : rt = []
-  · obtain ⟨rfl, rfl⟩ := h1 hrt
-    subst hrt
-    simp [resolve_tname, defaultOf]
-  · have hre : rt.isEmpty = false := by cases rt <;> simp_all
-    simp only [hre, Bool.false_eq_true, if_false, resolve_tname, List.isEmpty_cons]
-    have hgo : ¬(rt = "go".toList ∧ (!name.isEmpty) = true) := by
-      rintro ⟨hg, hn⟩
-      have := h2 hg
-      subst this
-      simp at hn
-    have hgo' : "go".toList = ['g', 'o'] := by decide
-    cases pat with
-    | none =>
-      by_cases hn : name = []
-      · subst hn
-        simp [exprsOf, exprOf, resolveArgs, resolveArg, createK, runtimeCreate, hre, hgo]
-      · have hne : name.isEmpty = false := by cases name <;> simp_all
-        have hg : ¬ rt = ['g', 'o'] := fun e => hn (h2 (hgo' ▸ e))
-        simp [hne, exprsOf, exprOf, resolveArgs, resolveArg, createK, runtimeCreate, hre, hg]
-    | some src =>
-      have hn : name ≠ [] := h3.1
-      have hne : name.isEmpty = false := by cases name <;> simp_all
+  have hgo' : "go".toList = ['g', 'o'] := by decide
+  cases pat with
+  | none =>
+    by_cases hn : name = []
+    · subst hn
+      by_cases hrt : rt = []
+      · subst hrt
+        simp [resolve_tname, defaultOf]
+      · have hre : rt.isEmpty = false := by cases rt <;> simp_all
+        simp [hre, resolve_tname, exprsOf, exprOf, resolveArgs, resolveArg, createK, runtimeCreate]
+    · have hne : name.isEmpty = false := by cases name <;> simp_all
       have hg : ¬ rt = ['g', 'o'] := fun e => hn (h2 (hgo' ▸ e))
-      have hra := resolve_regexp_arg env src
-      simp only [hne, Bool.false_eq_true, if_false, List.cons_append, List.nil_append, exprsOf, exprOf, resolveArgs, resolveArg,
-        hra, Option.map, Option.bind, createK, runtimeCreate]
-      simp [hre, hne, hg]
+      simp [hne, resolve_tname, exprsOf, exprOf, resolveArgs, resolveArg, createK, runtimeCreate, hg]
+  | some src =>
+    have hn : name ≠ [] := h3.1
+    have hne : name.isEmpty = false := by cases name <;> simp_all
+    have hg : ¬ rt = ['g', 'o'] := fun e => hn (h2 (hgo' ▸ e))
+    have hra := resolve_regexp_arg env src
+    simp only [hne, Bool.false_eq_true, and_false, false_and, if_false, Option.isNone_some, resolve_tname,
+      List.isEmpty_cons, List.cons_append, List.nil_append, exprsOf, exprOf, resolveArgs, resolveArg, hra, Option.map,
+      Option.bind, createK, runtimeCreate]
+    simp [hne, hg]
 
 /-! #### Struct -/
 
